@@ -428,10 +428,17 @@ fn tile_scenario(dir: &Path, kind: &str, name: &str, coords: Vec<Vec<(u8, u32, u
 		for (z, x, y, len) in [(0u8, 0u32, 0u32, 40usize), (9, 255, 5, 1500), (9, 256, 5, 30), (9, 256, 6, 2000), (9, 511, 511, 64), (3, 1, 2, 999)] {
 			tiles.insert((z, x, y), tile_payload(z, x, y, len));
 		}
+		if kind == "pmleaf" {
+			// a PMTiles archive with leaf directories (other writers use them from a few thousand tiles on;
+			// the repository's writer only beyond 16 KiB of root directory): independent encoder, one leaf level, two entries per leaf
+			let l = vcommon::codec::PmLayout { internal_gzip: true, run_lengths: false, share_offsets: false, leaf_levels: 1, leaf_size: 2, clustered: true, data_reversed: false };
+			std::fs::write(&path, vcommon::codec::pm_encode(&tiles, 0, 1, b"{}", l)).unwrap();
+		}
 		let mut src = MemSource::new("mem", tiles, TileFormat::BIN, TileCompression::Uncompressed);
 		let rt = vcommon::memsource::runtime(2);
 		rt.block_on(async {
 			match kind {
+				"pmleaf" => {}
 				"versatiles" => VersaTilesWriter::write_to_path(&mut src, &path).await.unwrap(),
 				"pmtiles" => PMTilesWriter::write_to_path(&mut src, &path).await.unwrap(),
 				"tar" => TarTilesWriter::write_to_path(&mut src, &path).await.unwrap(),
@@ -446,7 +453,7 @@ fn tile_scenario(dir: &Path, kind: &str, name: &str, coords: Vec<Vec<(u8, u32, u
 			let rt = tokio::runtime::Builder::new_current_thread().build().unwrap();
 			Arc::new(match kind.as_str() {
 				"versatiles" => rt.block_on(VersaTilesReader::open_path(&path)).unwrap().boxed(),
-				"pmtiles" => rt.block_on(PMTilesReader::open_path(&path)).unwrap().boxed(),
+				"pmtiles" | "pmleaf" => rt.block_on(PMTilesReader::open_path(&path)).unwrap().boxed(),
 				"tar" => TarTilesReader::open_path(&path).unwrap().boxed(),
 				_ => unreachable!(),
 			})
@@ -509,7 +516,7 @@ fn scenarios(dir: &Path, tier: Tier) -> Vec<Scenario> {
 		v.push(read_range_scenario(dir, "read_range 3 threads unbounded", vec![vec![(0, 16)], vec![(20000, 16)], vec![(40000, 16)]], None));
 	}
 	// (b) tile lookups on one reader instance
-	for kind in ["versatiles", "pmtiles", "tar"] {
+	for kind in ["versatiles", "pmtiles", "pmleaf", "tar"] {
 		v.push(tile_scenario(dir, kind, &format!("{kind} 2 threads same block cold"), vec![vec![(9, 256, 5)], vec![(9, 256, 6)]], None));
 		v.push(tile_scenario(dir, kind, &format!("{kind} 2 threads different blocks"), vec![vec![(9, 255, 5)], vec![(9, 511, 511)]], None));
 		v.push(tile_scenario(dir, kind, &format!("{kind} 2 threads x 2 lookups incl. missing"), vec![vec![(9, 256, 5), (9, 300, 5)], vec![(0, 0, 0), (9, 256, 5)]], if kind == "versatiles" { Some(3) } else { None }));
@@ -558,17 +565,37 @@ fn free_running_sample(dir: &Path) -> (u64, u64) {
 /// Labelled sample, not exhaustive: 8 uncontrolled OS threads x 300 tile lookups spread over
 /// different blocks of one reader instance. A mismatch is a real witness (sound), absence of
 /// mismatches proves nothing. Returns (calls, mismatches, first mismatch).
-fn free_running_tile_sample(dir: &Path, kind: &str) -> (u64, u64, Option<String>) {
-	let sc = tile_scenario(dir, kind, "free", vec![vec![]], None);
-	let _ = sc;
-	let path = dir.join(format!("tiles.{kind}"));
+fn free_running_tile_sample(dir: &Path, kind: &str, big: bool) -> (u64, u64, Option<String>) {
+	let path = if big { dir.join(format!("tiles-big.{kind}")) } else { dir.join(format!("tiles.{kind}")) };
+	let coords: Vec<(u8, u32, u32, usize)> = if big {
+		// 600 tiles of 300..1100 bytes over six blocks: the file spans many 64 KiB windows and (tar) hundreds of members
+		(0..600u32).map(|i| (9u8, 200 + (i % 30) * 10, 3 + i / 30, 300 + (i as usize * 37) % 800)).collect()
+	} else {
+		vec![(0, 0, 0, 40), (9, 255, 5, 1500), (9, 256, 5, 30), (9, 256, 6, 2000), (9, 511, 511, 64), (3, 1, 2, 999)]
+	};
+	if big {
+		let mut tiles = TileMap::new();
+		for &(z, x, y, len) in &coords {
+			tiles.insert((z, x, y), tile_payload(z, x, y, len));
+		}
+		let mut src = MemSource::new("mem", tiles, TileFormat::BIN, TileCompression::Uncompressed);
+		let rt = vcommon::memsource::runtime(2);
+		rt.block_on(async {
+			match kind {
+				"versatiles" => VersaTilesWriter::write_to_path(&mut src, &path).await.unwrap(),
+				"pmtiles" => PMTilesWriter::write_to_path(&mut src, &path).await.unwrap(),
+				_ => TarTilesWriter::write_to_path(&mut src, &path).await.unwrap(),
+			}
+		});
+	} else {
+		let _ = tile_scenario(dir, kind, "free", vec![vec![]], None);
+	}
 	let rt0 = tokio::runtime::Builder::new_current_thread().build().unwrap();
 	let reader: Arc<Box<dyn TilesReaderTrait>> = Arc::new(match kind {
 		"versatiles" => rt0.block_on(VersaTilesReader::open_path(&path)).unwrap().boxed(),
-		"pmtiles" => rt0.block_on(PMTilesReader::open_path(&path)).unwrap().boxed(),
+		"pmtiles" | "pmleaf" => rt0.block_on(PMTilesReader::open_path(&path)).unwrap().boxed(),
 		_ => TarTilesReader::open_path(&path).unwrap().boxed(),
 	});
-	let coords: Vec<(u8, u32, u32, usize)> = vec![(0, 0, 0, 40), (9, 255, 5, 1500), (9, 256, 5, 30), (9, 256, 6, 2000), (9, 511, 511, 64), (3, 1, 2, 999)];
 	let mism = Arc::new(AtomicU64::new(0));
 	let total = Arc::new(AtomicU64::new(0));
 	let first: Arc<Mutex<Option<String>>> = Arc::new(Mutex::new(None));
@@ -577,8 +604,8 @@ fn free_running_tile_sample(dir: &Path, kind: &str) -> (u64, u64, Option<String>
 		let (reader, mism, total, first, coords) = (reader.clone(), mism.clone(), total.clone(), first.clone(), coords.clone());
 		hs.push(std::thread::spawn(move || {
 			let rt = tokio::runtime::Builder::new_current_thread().build().unwrap();
-			for i in 0..300usize {
-				let (z, x, y, len) = coords[(t + i * (t + 1)) % coords.len()];
+			for i in 0..(if big { 1500usize } else { 300 }) {
+				let (z, x, y, len) = coords[(t * 53 + i * (2 * t + 1)) % coords.len()];
 				let want = tile_payload(z, x, y, len);
 				let r = std::panic::catch_unwind(std::panic::AssertUnwindSafe(|| rt.block_on(reader.get_tile_data(&TileCoord3 { x, y, z }))));
 				let ok = matches!(&r, Ok(Ok(Some(b))) if b.as_slice() == want.as_slice());
@@ -691,9 +718,9 @@ fn run(ctx: &Ctx) {
 	let (total, mism) = free_running_sample(&dir);
 	ctx.extra("free_running_sample", json!({"note": "supplementary labelled sample, 16 uncontrolled OS threads x 300 read_range calls; a mismatch is reported (sound), silence proves nothing", "calls": total, "mismatches": mism}));
 	let mut tile_samples = vec![];
-	for kind in ["versatiles", "pmtiles", "tar"] {
-		let (calls, mism, first) = free_running_tile_sample(&dir, kind);
-		tile_samples.push(json!({"container": kind, "calls": calls, "mismatches": mism}));
+	for (kind, big) in [("versatiles", false), ("pmtiles", false), ("pmleaf", false), ("tar", false), ("versatiles", true), ("pmtiles", true), ("tar", true)] {
+		let (calls, mism, first) = free_running_tile_sample(&dir, kind, big);
+		tile_samples.push(json!({"container": kind, "tiles": if big { 600 } else { 6 }, "calls": calls, "mismatches": mism}));
 		if let Some(f) = first {
 			// a wrong answer under real concurrency is a real witness even though this run is only a sample
 			ctx.violation(
